@@ -1171,3 +1171,56 @@ pub fn bad_range_from_helper_other_len(points: &[u32], other: &[u32], ends: &[u1
     let s = &points[start..=end];
     s.first().copied()
 }
+
+// ---- a trip that changes nothing the loop's branches look at ------------------------------------------------------------
+
+// merge of two sorted lists: the `Greater` arm forgets to step `j`
+pub fn loopbad_stutter_merge_arm_without_step(a: &[u32], b: &[u32]) -> u32 {
+    let (mut i, mut j, mut n) = (0usize, 0usize, 0u32);
+    while i < a.len() && j < b.len() {
+        if a[i] == b[j] {
+            n = n.wrapping_add(1);
+            i += 1;
+            j += 1;
+        } else if a[i] < b[j] {
+            i += 1;
+        } else {
+            n = n.wrapping_add(2);
+        }
+    }
+    n
+}
+
+pub fn loopgood_stutter_merge(a: &[u32], b: &[u32]) -> u32 {
+    let (mut i, mut j, mut n) = (0usize, 0usize, 0u32);
+    while i < a.len() && j < b.len() {
+        if a[i] == b[j] {
+            n = n.wrapping_add(1);
+            i += 1;
+            j += 1;
+        } else if a[i] < b[j] {
+            i += 1;
+        } else {
+            j += 1;
+        }
+    }
+    n
+}
+
+// an arm that produces the absence leaves through `?`: it is not a trip that repeats
+pub enum TwoSources<'a> {
+    Nothing,
+    Bytes(core::slice::Iter<'a, u8>),
+}
+
+pub fn loopgood_stutter_none_arm_leaves(src: &mut TwoSources) -> Option<u8> {
+    loop {
+        let item = match src {
+            TwoSources::Nothing => None,
+            TwoSources::Bytes(it) => it.next().copied(),
+        }?;
+        if item != 0 {
+            return Some(item);
+        }
+    }
+}
